@@ -59,41 +59,54 @@ type popSpec struct {
 
 func popSpecs() []popSpec {
 	filters := popSpec{Name: "filters", Replicas: []replicaSpec{{"A", []step{
-		{Op: "new", Bug: "b1", By: "I0", Unix: 1000, Title: "Critical crash in parser", Msg: "zebra sighting", Meta: map[string]string{"github-id": "42"}},
+		{Op: "new", Bug: "b1", By: "I0", Unix: 1000, Title: "Critical crash in parser", Msg: "zebra sighting ubiquitous", Meta: map[string]string{"github-id": "42"}},
 		{Op: "labels", Bug: "b1", By: "I0", Unix: 1001, Add: []string{"prod"}},
-		{Op: "new", Bug: "b2", By: "I1", Unix: 1010, Title: "Typo in string", Msg: "quokka here"},
+		{Op: "new", Bug: "b2", By: "I1", Unix: 1010, Title: "Typo in string", Msg: "quokka here ubiquitous"},
 		{Op: "labels", Bug: "b2", By: "I1", Unix: 1011, Add: []string{"prod", "Good first issue"}},
 		{Op: "comment", Bug: "b2", By: "I3", Unix: 1012, Msg: "second zebra"},
 		{Op: "close", Bug: "b2", By: "I2", Unix: 1013},
-		{Op: "new", Bug: "b3", By: "I2", Unix: 1020, Title: "crash a:b reported", Msg: "nothing special", Meta: map[string]string{"github-id": "43", "origin": "two words"}},
-		{Op: "new", Bug: "b4", By: "I3", Unix: 1030, Title: "Unrelated étude", Msg: "plain text"},
+		{Op: "new", Bug: "b3", By: "I2", Unix: 1020, Title: "crash a:b reported", Msg: "nothing special ubiquitous", Meta: map[string]string{"github-id": "43", "origin": "two words"}},
+		{Op: "new", Bug: "b4", By: "I3", Unix: 1030, Title: "Unrelated étude", Msg: "plain text ubiquitous"},
 		{Op: "labels", Bug: "b4", By: "I3", Unix: 1031, Add: []string{"étiquette", "production"}},
 		{Op: "comment", Bug: "b4", By: "I0", Unix: 1032, Msg: "quokka again"},
 		{Op: "close", Bug: "b4", By: "I1", Unix: 1033},
 		{Op: "open", Bug: "b4", By: "I1", Unix: 1034},
-		{Op: "new", Bug: "b5", By: "I0", Unix: 1040, Title: "Critical Typo in string twice", Msg: "lynx", Meta: map[string]string{"github-id": "42"}},
+		{Op: "new", Bug: "b5", By: "I0", Unix: 1040, Title: "Critical Typo in string twice", Msg: "lynx ubiquitous", Meta: map[string]string{"github-id": "42"}},
 		{Op: "labels", Bug: "b5", By: "I4", Unix: 1041, Add: []string{"Good first issue"}},
-		{Op: "new", Bug: "b6", By: "I1", Unix: 1050, Title: "okapi", Msg: "nothing"},
+		{Op: "new", Bug: "b6", By: "I1", Unix: 1050, Title: "okapi", Msg: "nothing ubiquitous"},
 		{Op: "close", Bug: "b6", By: "I1", Unix: 1051},
-		{Op: "new", Bug: "b7", By: "I2", Unix: 1060, Title: "parser crash", Msg: "okapi and zebra", Meta: map[string]string{"origin": "none"}},
+		{Op: "new", Bug: "b7", By: "I2", Unix: 1060, Title: "parser crash", Msg: "okapi and zebra ubiquitous", Meta: map[string]string{"origin": "none"}},
 		{Op: "labels", Bug: "b7", By: "I2", Unix: 1061, Add: []string{"prod", "production", "temporary"}},
 		{Op: "labels", Bug: "b7", By: "I2", Unix: 1062, Remove: []string{"temporary"}},
 		{Op: "comment", Bug: "b7", By: "I1", Unix: 1063, Msg: "me too"},
 		{Op: "title", Bug: "b7", By: "I0", Unix: 1064, Title: "Critical parser crash"},
-		{Op: "new", Bug: "b8", By: "I3", Unix: 1070, Title: "labelled then not", Msg: "quokka zebra"},
+		{Op: "new", Bug: "b8", By: "I3", Unix: 1070, Title: "labelled then not", Msg: "quokka zebra ubiquitous"},
 		{Op: "labels", Bug: "b8", By: "I3", Unix: 1071, Add: []string{"prod"}},
 		{Op: "labels", Bug: "b8", By: "I3", Unix: 1072, Remove: []string{"prod"}},
-		{Op: "new", Bug: "b9", By: "I5", Unix: 1080, Title: "can't reproduce", Msg: "lynx", Meta: map[string]string{"origin": "it's:here"}},
+		{Op: "new", Bug: "b9", By: "I5", Unix: 1080, Title: "can't reproduce", Msg: "lynx ubiquitous", Meta: map[string]string{"origin": "it's:here"}},
 		{Op: "labels", Bug: "b9", By: "I5", Unix: 1081, Add: []string{"it's"}},
 		{Op: "comment", Bug: "b1", By: "I5", Unix: 1082, Msg: "me neither"},
 		// titles whose only capitals are non-ASCII; author / commenter (participant) / closer (actor only) differ
-		{Op: "new", Bug: "b10", By: "I6", Unix: 1090, Title: "Überlauf im zähler", Msg: "lynx"},
+		{Op: "new", Bug: "b10", By: "I6", Unix: 1090, Title: "Überlauf im zähler", Msg: "lynx ubiquitous"},
 		{Op: "comment", Bug: "b10", By: "I7", Unix: 1091, Msg: "plain"},
 		{Op: "close", Bug: "b10", By: "I8", Unix: 1092},
-		{Op: "new", Bug: "b11", By: "I7", Unix: 1100, Title: "Дмитрий und Ωμέγα", Msg: "lynx"},
+		{Op: "new", Bug: "b11", By: "I7", Unix: 1100, Title: "Дмитрий und Ωμέγα", Msg: "lynx ubiquitous"},
 		{Op: "comment", Bug: "b11", By: "I8", Unix: 1101, Msg: "plain"},
 		{Op: "labels", Bug: "b11", By: "I6", Unix: 1102, Add: []string{"prod"}},
-		{Op: "new", Bug: "b12", By: "I8", Unix: 1110, Title: "Émile trifft Ørsted", Msg: "lynx"},
+		{Op: "new", Bug: "b12", By: "I8", Unix: 1110, Title: "Émile trifft Ørsted", Msg: "lynx ubiquitous"},
+		// a search word carried by more than ten bugs: every create message ends with "ubiquitous", and
+		// all bugs but b6 get a comment by their own author carrying "frequent"
+		{Op: "comment", Bug: "b1", By: "I0", Unix: 1200, Msg: "this is frequent"},
+		{Op: "comment", Bug: "b2", By: "I1", Unix: 1201, Msg: "this is frequent"},
+		{Op: "comment", Bug: "b3", By: "I2", Unix: 1202, Msg: "this is frequent"},
+		{Op: "comment", Bug: "b4", By: "I3", Unix: 1203, Msg: "this is frequent"},
+		{Op: "comment", Bug: "b5", By: "I0", Unix: 1204, Msg: "this is frequent"},
+		{Op: "comment", Bug: "b7", By: "I2", Unix: 1205, Msg: "this is frequent"},
+		{Op: "comment", Bug: "b8", By: "I3", Unix: 1206, Msg: "this is frequent"},
+		{Op: "comment", Bug: "b9", By: "I5", Unix: 1207, Msg: "this is frequent"},
+		{Op: "comment", Bug: "b10", By: "I6", Unix: 1208, Msg: "this is frequent"},
+		{Op: "comment", Bug: "b11", By: "I7", Unix: 1209, Msg: "this is frequent"},
+		{Op: "comment", Bug: "b12", By: "I8", Unix: 1210, Msg: "this is frequent"},
 	}}}}
 
 	// Two replicas work independently (equal Lamport times), with unix stamps chosen so that equal
